@@ -338,8 +338,14 @@ func opUpDown(st *state, args []string) []string {
 	byCall := map[int]int{}
 	for _, c := range args[4] {
 		done := make(chan error, 1)
+		var holder *net.UDPConn
 		switch c {
-		case 'S':
+		case 'S', 'F':
+			// 'F': a foreign socket without SO_REUSEPORT holds the port while Start runs (when the receiver is stopped the
+			// bind fails; when it is started the foreign socket cannot bind and Start is refused as "already started")
+			if c == 'F' {
+				holder, _ = net.ListenUDP("udp", &net.UDPAddr{IP: net.ParseIP("127.0.0.1"), Port: port})
+			}
 			// every Start call hands over a decoder of its own: the decoder of a refused Start must never see a datagram
 			callNo++
 			mine := callNo
@@ -363,9 +369,15 @@ func opUpDown(st *state, args []string) []string {
 		}
 		select {
 		case e := <-done:
+			if holder != nil {
+				holder.Close()
+			}
 			if e != nil {
 				results = append(results, "1")
-				if c == 'S' {
+				// a Start refused because the receiver is started must not have changed anything: its decoder never sees a
+				// datagram. (A Start that fails to bind on a stopped receiver had its workers running for a moment; they may
+				// decode what a reader of the previous session put in the queue behind Stop's sentinels — not a refusal.)
+				if c == 'S' || (c == 'F' && started) {
 					u.mu.Lock()
 					refused[lastStart] = true
 					stolen += byCall[lastStart]
@@ -373,7 +385,7 @@ func opUpDown(st *state, args []string) []string {
 				}
 			} else {
 				results = append(results, "0")
-				started = c == 'S'
+				started = c == 'S' || c == 'F'
 				if started {
 					// a receiver that reports it has started must decode the traffic that keeps arriving
 					u.mu.Lock()
